@@ -14,6 +14,24 @@ CHECKS = {
         note='Trusted: Lean kernel; extract_tables.py; clingo.ast transcription of emitted literals; gringo integer comparison semantics (validated by the '
              'clingo search on every run). Partial: required...between is a known finding (F1); absolute-value operands outside the grid.',
         design='DESIGN.md §6 C03'),
+    'C16': dict(
+        technique='Lean 4 proof about an executable model of the range enumeration and calendar + correspondence with the real TemporalEntityComponent/datetime; clingo search',
+        text='Lean theorems for all ranges and lengths: the enumeration loop yields exactly A, A+L, ... <= B numbered from 0 (closed form, by '
+             'induction on the loop); ids follow chronological order (so before/after V compares correctly); 12-hour clock printing is injective on '
+             'a day and round-trips for all 1440 minutes; nextDay keeps dates valid and advances the ordinal by one (month/year/leap ends); '
+             'lexicographic date order = ordinal order; the date loop refines the integer loop; a value outside the range has no id.',
+        note='Trusted: Lean kernel; the model of datetime.strptime/strftime/timedelta (compared with the real datetime and the real '
+             'TemporalEntityComponent on ~8000 inputs per quick run incl. all boundaries); clingo. Years 1000..9990; length >= 1.',
+        design='DESIGN.md §6 C16'),
+    'C18': dict(
+        technique='Lean 4 proof about the CLI control function and diagnostic construction + correspondence with the real main()/ParserError on damaged inputs',
+        text='Lean theorems: for every flag set and every behaviour of the compiler the control function of main() has no uncaught exception and '
+             'opens no output file on error; the diagnostic kind follows the outcome in every mode; the word extractor is total and returns a '
+             'blank-free piece of the line; offset <-> (line, col) round trip for all texts.',
+        note='Trusted: Lean kernel; the correspondence harness (real main() in-process with argv/stdout patched; subprocess runs); Lark\'s position '
+             'contract (cross-checked). Two genuine defects were repaired by fix: commits 72d663b and 30237fb. OS-level failures (missing '
+             'file, encoding) and --optimize/--solve are outside the model.',
+        design='DESIGN.md §6 C18'),
 }
 
 NOT_YET = {}
@@ -46,7 +64,7 @@ def main():
             'guard': 'DODARO_CNL2ASP_VERIF',
             'enable': 'no hooks in /repo: all instrumentation is done from the harness process by wrapping / subclassing',
             'baseline_off_cmd': 'cd /repo && /venv/bin/python -m pytest -ra -q -p no:cacheprovider --timeout=900 --continue-on-collection-errors',
-            'source_commits': [],
+            'source_commits': [],  # no hook commits; fix: commits are listed in known_findings.json
             'add_only': True,
         },
         'engines': [{
